@@ -169,6 +169,8 @@ type WEval struct {
 	elemNames  map[ssa.Value]string   // loop element loads -> "coll[i]"
 	allocEpoch map[*ssa.Alloc]int     // reader paths: named locals are printed as name#epoch
 	pathPhi    map[*ssa.Phi]ssa.Value // evaluation along one enumerated path: the incoming value chosen at each merge
+	splitPhi   *ssa.Phi               // set when a merged value had to be printed inside a term (see evalFuncResult)
+	splits     int
 }
 
 func newWEval(p *Prog, fn *ssa.Function) *WEval {
@@ -241,7 +243,11 @@ func (w *WEval) term(v ssa.Value) string {
 		return "(" + w.term(x.X) + " " + x.Op.String() + " " + w.term(x.Y) + ")"
 	case *ssa.Call:
 		if b, ok := x.Call.Value.(*ssa.Builtin); ok && (b.Name() == "len" || b.Name() == "cap") {
-			return b.Name() + "(" + w.term(x.Call.Args[0]) + ")"
+			if at := w.term(x.Call.Args[0]); at == "nil" {
+				return "0"
+			} else {
+				return b.Name() + "(" + at + ")"
+			}
 		}
 		if sc := x.Call.StaticCallee(); sc != nil {
 			if strings.Contains(sc.String(), "encoding/binary") && strings.HasPrefix(sc.Name(), "Uint") {
@@ -267,6 +273,12 @@ func (w *WEval) term(v ssa.Value) string {
 	case *ssa.Phi:
 		if isLoopHeader(x.Block()) && isIntType(x.Type()) {
 			return "i"
+		}
+		if ch, ok := w.pathPhi[x]; ok {
+			return w.term(ch)
+		}
+		if w.splitPhi == nil && !isLoopHeader(x.Block()) {
+			w.splitPhi = x // a value merged from several branches appears in a term: evaluate once per branch
 		}
 		return "phi"
 	case *ssa.Extract:
@@ -523,78 +535,159 @@ func (w *WEval) evalFilledMake(mk *ssa.MakeSlice) *Lay {
 	if mk.Referrers() == nil {
 		return unk("make of run-time length, never filled")
 	}
-	env := newTermEnv()
 	type seg struct {
 		off, n *TLin
 		l      *Lay
 	}
 	var segs []seg
-	one := newTLin()
-	one.Const.SetInt64(1)
-	copyInto := func(c *ssa.Call, off *TLin) bool {
-		b, ok := c.Call.Value.(*ssa.Builtin)
-		if !ok || b.Name() != "copy" || c.Block() != mk.Block() {
-			return false
-		}
-		src := c.Call.Args[1]
-		n := newTLin()
-		n.addAtom(atomName(&T{K: "len", Args: []*T{env.Term(src)}}), big.NewInt(1))
-		segs = append(segs, seg{off, n, w.eval(src)})
-		return true
+	constLin := func(k int64) *TLin {
+		l := newTLin()
+		l.Const.SetInt64(k)
+		return l
 	}
-	for _, r := range *mk.Referrers() {
-		switch x := r.(type) {
-		case *ssa.DebugRef, *ssa.Store, *ssa.MakeInterface, *ssa.Return, *ssa.Phi:
-		case *ssa.IndexAddr:
-			if x.Referrers() == nil {
-				continue
+	// lengths and offsets as linear forms over len(...) atoms; the count returned by copy(dst, src)
+	// is len(src) (the destination is long enough when the writes tile the buffer, checked below)
+	var lenOf func(v ssa.Value) *TLin
+	var off func(v ssa.Value, depth int) *TLin
+	lenOf = func(v ssa.Value) *TLin {
+		if ph, ok := v.(*ssa.Phi); ok {
+			if ch, ok := w.pathPhi[ph]; ok {
+				return lenOf(ch)
 			}
-			for _, rr := range *x.Referrers() {
-				if st, ok := rr.(*ssa.Store); ok && st.Addr == ssa.Value(x) {
-					if st.Block() != mk.Block() {
-						return unk("buffer element written outside the block that makes it")
-					}
-					segs = append(segs, seg{linOf(env.Term(x.Index), nil), one, w.byteOf(st.Val)})
+		}
+		if k, ok := v.(*ssa.Const); ok && k.Value == nil {
+			return constLin(0)
+		}
+		if sl, ok := v.(*ssa.Slice); ok && (sl.Low != nil || sl.High != nil) {
+			if sl.High != nil {
+				l := off(sl.High, 0)
+				if sl.Low != nil {
+					l = l.add(off(sl.Low, 0), -1)
 				}
+				return l
 			}
-		case *ssa.Slice:
-			if x.Referrers() == nil {
-				continue
+		}
+		l := newTLin()
+		l.addAtom("len("+w.term(v)+")", big.NewInt(1))
+		return l
+	}
+	off = func(v ssa.Value, depth int) *TLin {
+		if depth > 12 {
+			l := newTLin()
+			l.addAtom(w.term(v), big.NewInt(1))
+			return l
+		}
+		switch x := v.(type) {
+		case *ssa.Const:
+			if k, ok := constInt(x); ok {
+				return constLin(k.Int64())
 			}
-			for _, rr := range *x.Referrers() {
-				if c, ok := rr.(*ssa.Call); ok && len(c.Call.Args) > 0 && c.Call.Args[0] == ssa.Value(x) {
-					off := newTLin()
-					if x.Low != nil {
-						off = linOf(env.Term(x.Low), nil)
-					}
-					if !copyInto(c, off) {
-						if sc := c.Call.StaticCallee(); sc == nil || strings.HasPrefix(sc.Name(), "PutUint") || sc.String() == "io.ReadFull" {
-							return unk("buffer of run-time length filled by %s", calleeLabel(&c.Call))
-						}
-					}
-				}
+		case *ssa.Convert:
+			if isIntType(x.X.Type()) {
+				return off(x.X, depth+1)
+			}
+		case *ssa.BinOp:
+			switch x.Op {
+			case token.ADD:
+				return off(x.X, depth+1).add(off(x.Y, depth+1), 1)
+			case token.SUB:
+				return off(x.X, depth+1).add(off(x.Y, depth+1), -1)
+			}
+		case *ssa.Phi:
+			if ch, ok := w.pathPhi[x]; ok {
+				return off(ch, depth+1)
 			}
 		case *ssa.Call:
-			if len(x.Call.Args) > 0 && x.Call.Args[0] == ssa.Value(mk) {
-				if _, isB := x.Call.Value.(*ssa.Builtin); isB {
-					if x.Call.Value.(*ssa.Builtin).Name() == "copy" && !copyInto(x, newTLin()) {
-						return unk("copy into the buffer outside the block that makes it")
+			if b, ok := x.Call.Value.(*ssa.Builtin); ok {
+				switch b.Name() {
+				case "copy":
+					return lenOf(x.Call.Args[1])
+				case "len":
+					return lenOf(x.Call.Args[0])
+				}
+			}
+		}
+		l := newTLin()
+		l.addAtom(w.term(v), big.NewInt(1))
+		return l
+	}
+	inBlock := func(ins ssa.Instruction) bool { return ins.Block() == mk.Block() }
+	// a use of the buffer (or of a re-slice of it starting at base) as the destination of a writer
+	var uses func(v ssa.Value, base *TLin, depth int) *Lay
+	uses = func(v ssa.Value, base *TLin, depth int) *Lay {
+		if v.Referrers() == nil || depth > 3 {
+			return nil
+		}
+		for _, r := range *v.Referrers() {
+			switch x := r.(type) {
+			case *ssa.DebugRef, *ssa.Store, *ssa.MakeInterface, *ssa.Return, *ssa.Phi:
+			case *ssa.IndexAddr:
+				if x.Referrers() == nil {
+					continue
+				}
+				for _, rr := range *x.Referrers() {
+					if st, ok := rr.(*ssa.Store); ok && st.Addr == ssa.Value(x) {
+						if !inBlock(st) {
+							return unk("buffer element written outside the block that makes it")
+						}
+						segs = append(segs, seg{base.add(off(x.Index, 0), 1), constLin(1), w.byteOf(st.Val)})
+					}
+				}
+			case *ssa.Slice:
+				nb := base
+				if x.Low != nil {
+					nb = base.add(off(x.Low, 0), 1)
+				}
+				if e := uses(x, nb, depth+1); e != nil {
+					return e
+				}
+			case *ssa.Call:
+				if len(x.Call.Args) == 0 {
+					continue
+				}
+				if b, ok := x.Call.Value.(*ssa.Builtin); ok {
+					if b.Name() == "copy" && x.Call.Args[0] == v {
+						if !inBlock(x) {
+							return unk("copy into the buffer outside the block that makes it")
+						}
+						segs = append(segs, seg{base, lenOf(x.Call.Args[1]), w.eval(x.Call.Args[1])})
 					}
 					continue
 				}
+				sc := x.Call.StaticCallee()
+				if sc == nil {
+					return unk("buffer of run-time length handed to a dynamic call")
+				}
+				if strings.HasPrefix(sc.Name(), "PutUint") && strings.Contains(sc.String(), "encoding/binary") && len(x.Call.Args) == 3 && x.Call.Args[1] == v {
+					if !inBlock(x) {
+						return unk("PutUint into the buffer outside the block that makes it")
+					}
+					width := 0
+					fmt.Sscanf(strings.TrimPrefix(sc.Name(), "PutUint"), "%d", &width)
+					k := "le"
+					if strings.Contains(sc.String(), "bigEndian") {
+						k = "be"
+					}
+					segs = append(segs, seg{base, constLin(int64(width / 8)), &Lay{K: k, W: width / 8, S: w.term(x.Call.Args[2])}})
+					continue
+				}
+				if sc.String() == "io.ReadFull" || strings.HasSuffix(sc.String(), "rand.Read") {
+					return unk("buffer of run-time length filled by %s", calleeLabel(&x.Call))
+				}
+			default:
+				return unk("buffer of run-time length used by %T", r)
 			}
-			if sc := x.Call.StaticCallee(); sc == nil || strings.HasPrefix(sc.Name(), "PutUint") || sc.String() == "io.ReadFull" || strings.HasSuffix(sc.String(), "rand.Read") {
-				return unk("buffer of run-time length filled by %s", calleeLabel(&x.Call))
-			}
-		default:
-			return unk("buffer of run-time length used by %T", r)
 		}
+		return nil
+	}
+	if e := uses(mk, constLin(0), 0); e != nil {
+		return e
 	}
 	if len(segs) == 0 {
 		return unk("make of run-time length %s, never filled", w.term(mk.Len))
 	}
-	total := linOf(env.Term(mk.Len), nil)
-	cur := newTLin()
+	total := off(mk.Len, 0)
+	cur := constLin(0)
 	var items []*Lay
 	used := make([]bool, len(segs))
 	for range segs {
@@ -816,6 +909,9 @@ func (w *WEval) evalCall(c *ssa.Call) *Lay {
 		if k, ok := constInt(c.Call.Args[0]); ok && k.Sign() >= 0 && k.Int64() < 0xfd {
 			return &Lay{K: "const", S: fmt.Sprintf("%02x", k.Int64())}
 		}
+		if w.term(c.Call.Args[0]) == "0" {
+			return &Lay{K: "const", S: "00"}
+		}
 		return &Lay{K: "varint", S: w.term(c.Call.Args[0])}
 	case "github.com/libsv/go-bk/crypto.Hash160":
 		// 20 opaque bytes, named by the call
@@ -969,6 +1065,45 @@ func (w *WEval) constBool(v ssa.Value) (bool, bool) {
 // evalFunc: layout of the function's (success) result.
 func (w *WEval) evalFunc() *Lay { return w.evalFuncResult(0) }
 
+// evalSplitting evaluates v; when a value merged from several branches had to be printed inside a
+// term (a length, an integer field), the evaluation is repeated once per incoming branch with the
+// merge resolved, and the results are combined into a selection on the branch conditions.
+func (w *WEval) evalSplitting(v ssa.Value) *Lay {
+	w.splitPhi = nil
+	l := w.eval(v)
+	ph := w.splitPhi
+	w.splitPhi = nil
+	if ph == nil || w.splits >= 4 {
+		return l
+	}
+	b := ph.Block()
+	idom := b.Idom()
+	if idom == nil {
+		return l
+	}
+	w.splits++
+	defer func() { w.splits-- }()
+	if w.pathPhi == nil {
+		w.pathPhi = map[*ssa.Phi]ssa.Value{}
+	}
+	saved := w.memo
+	defer func() { w.memo = saved; delete(w.pathPhi, ph) }()
+	return w.selectOver(idom, b, func(d *DPath) *Lay {
+		if d.EndKind != "stop" || d.Target != b || len(d.Blocks) == 0 {
+			return nil
+		}
+		last := d.Blocks[len(d.Blocks)-1]
+		for i, p := range b.Preds {
+			if p == last {
+				w.pathPhi[ph] = ph.Edges[i]
+				w.memo = map[ssa.Value]*Lay{}
+				return w.evalSplitting(v)
+			}
+		}
+		return nil
+	})
+}
+
 // evalFuncResult: the layout of result #ri of the function on its success returns.
 func (w *WEval) evalFuncResult(ri int) *Lay {
 	var rets []*ssa.Return
@@ -991,7 +1126,7 @@ func (w *WEval) evalFuncResult(ri int) *Lay {
 		if ri >= len(rets[0].Results) {
 			return unk("result %d of %s does not exist", ri, funcName(w.fn))
 		}
-		return w.eval(rets[0].Results[ri])
+		return w.evalSplitting(rets[0].Results[ri])
 	}
 	// several success returns: a selection on their path conditions from the entry block
 	return w.selectOver(w.fn.Blocks[0], nil, func(d *DPath) *Lay {
